@@ -3,6 +3,7 @@ import Qryn.Proofs.Assembly
 import Qryn.Proofs.PromSelect
 import Qryn.Proofs.ProfSelector
 import Qryn.Proofs.Stepped
+import Qryn.Proofs.Downsample
 /-! # C17 — Prometheus and Pyroscope label matchers select exactly the matching series
 
 Property theorems only.
@@ -778,5 +779,61 @@ example : run ⟨5, 100, 10, 4, "rate"⟩ [⟨1, 1, 5⟩, ⟨1, 2, 9⟩, ⟨1, 3
   decide
 
 end Stepped
+
+/-! ## Part 6 — the down-sampled sample path (`TranspileLabelMatchersDownsample`)
+
+Model: `Qryn.Prom.Downsample.down h rows` over the `metrics_15s` rows of the series `fp_sel` selects. The path is
+taken for steps of 15 s and more (`Stepped.usesRaw h = false`), outside the quantifier of the property's last
+clause (its values are 15 s aggregates, re-timed to `bucket·Step − 1`); what is proved is the part of the property
+that does not depend on the step: which series and which stored rows take part. -/
+section Downsample
+open Qryn Qryn.Prom.Stepped Qryn.Prom.Downsample
+
+/-- **downsample_rows.** For every hint combination and every content of `metrics_15s`, when the query has a
+    result: its rows are ordered by fingerprint and strictly ascending in time inside a fingerprint (one row per
+    series and output time); every row stands for at least one stored 15 s row **of that series** whose bucket
+    start lies in `[Start, End]` — both ends inclusive, after `fix: down-sampled PromQL scan …` — and whose output
+    time it carries; and every stored row the WHERE keeps is represented in a row of its series. The series are
+    those of `fp_sel`, the same label-index query as on the raw path (`Gen.PromStep.downSelector`), so `select_exact`
+    describes them. -/
+theorem downsample_rows (h : Hints) (rows : List Agg) (out : List DRow) (e : down h rows = some out) :
+    out.Pairwise (fun a b => a.fp < b.fp ∨ (a.fp = b.fp ∧ a.ts < b.ts)) ∧
+    (∀ o ∈ out, ∃ a ∈ rows, a.fp = o.fp ∧ timeOf h a = o.ts ∧ h.start ≤ a.b ∧ a.b ≤ h.stop) ∧
+    (∀ a ∈ scanned h rows, ∃ o ∈ out, o.fp = a.fp ∧ o.ts = timeOf h a) ∧
+    Gen.PromStep.downSelector = "fingerprintsQuery" := by
+  have hk := down_keys h rows out e
+  refine ⟨?_, ?_, ?_, by decide⟩
+  · have := keysD_pairwise h (scanned h rows)
+    rw [← hk, List.pairwise_map] at this
+    exact this
+  · intro o ho
+    have : ((o.fp, o.ts) : Key) ∈ keysD h (scanned h rows) := by
+      rw [← hk]; exact List.mem_map.mpr ⟨o, ho, rfl⟩
+    obtain ⟨a, ha, hka⟩ := (mem_keysD _ _ _).mp this
+    have hmem := List.mem_filter.mp ha
+    have hscan : scanHoldsD h a = true := by
+      have := hmem.2; simp only [Bool.and_eq_true] at this; exact this.1
+    obtain ⟨h1, h2⟩ := (scanHoldsD_iff h a).mp hscan
+    have e1 : a.fp = o.fp := congrArg Prod.fst hka
+    have e2 : timeOf h a = o.ts := congrArg Prod.snd hka
+    exact ⟨a, hmem.1, e1, e2, h1, h2⟩
+  · intro a ha
+    have : keyD h a ∈ keysD h (scanned h rows) := (mem_keysD _ _ _).mpr ⟨a, ha, rfl⟩
+    rw [← hk] at this
+    obtain ⟨o, ho, hko⟩ := List.mem_map.mp this
+    exact ⟨o, ho, congrArg Prod.fst hko, congrArg Prod.snd hko⟩
+
+/-- **downsample_scan_window.** The down-sampled scan keeps exactly the 15 s rows with `Start ≤ bucket start ≤ End`
+    (`Gen.PromStep.downLower/downUpper`) — in particular the bucket that starts exactly at `Start`, whose samples
+    `[Start, Start + 15 s)` all lie inside the window. -/
+theorem downsample_scan_window (h : Hints) (a : Agg) :
+    scanHoldsD h a = true ↔ h.start ≤ a.b ∧ a.b ≤ h.stop := scanHoldsD_iff h a
+
+-- a concrete run: sum_over_time, Step 30 s, Range 60 s: buckets 10 s and 25 s fall into one output time
+example : down ⟨1700000010000, 1700000100000, 30000, 60000, "sum_over_time"⟩
+    [⟨1, 1700000010000, 5, 7, 1, 5, 9, 3⟩, ⟨1, 1700000025000, 6, 8, 6, 6, 6, 1⟩, ⟨1, 1700000040000, 2, 9, 2, 2, 2, 1⟩]
+    = some [⟨1, 1700000009999, 15, 1⟩, ⟨1, 1700000039999, 2, 1⟩] := by decide
+
+end Downsample
 
 end Qryn.C17
